@@ -343,8 +343,9 @@ def sc_ssh(spec, can, res, R):
 
 def sc_escalate(spec, can, res, R):
     plat, v = spec["platform"], spec.get("variant", "ok")
+    # variant "nopass": the device asks for no password at all although the driver has an auth_secondary
     dev = CliDevice(plat, hostname="r1", user="admin", login_mode="exec" if plat != "cisco_iosxr" else None,
-                    enable_password=can["SEC"].full if v in ("ok", "priverr") else "other-secret")
+                    enable_password=None if v == "nopass" else can["SEC"].full if v in ("ok", "priverr") else "other-secret")
     conn, t = make_conn(plat, dev, spec["stack"], faults=_faults(spec), transport_cls=_tcls(spec),
                         **_common_kw(can, auth_secondary=can["SEC"].full))
     res.conn = conn
@@ -387,6 +388,20 @@ def sc_interactive(spec, can, res, R):
     except Exception as e:
         res.exhibits += exception_exhibits(e)
     res.exhibits.append(Exhibit("repr", repr(resp) + "\n" + str(resp) + "\n" + repr(resp.channel_input), gating=False, what="repr(response)"))
+    R.do(conn.close)
+
+
+def sc_interactive_early(spec, can, res, R):
+    """a multi step interaction that ends early: the prompt the first event expects never comes, one of the
+    interaction_complete_patterns matches instead, a hidden event is still pending (the device is then at an
+    ordinary prompt, where it echoes what is typed)"""
+    dev = DialogueDevice("r1>", ["r1>", "r1>", "r1>"], [False, False, False], echo_all=False)
+    conn, t = make_conn("generic", dev, spec["stack"], faults=_faults(spec), transport_cls=_tcls(spec), **_common_kw(can))
+    res.conn = conn
+    R.do(conn.open)
+    events = [("clear thing " + can["NHI"].core, "Password:", False), (can["HID"].full, "r1>", True)]
+    resp = R.do(conn.send_interactive, events, interaction_complete_patterns=["r1>"])
+    res.exhibits.append(Exhibit("repr", repr(resp) + "\n" + repr(resp.result) + repr(resp.raw_result), gating=False, what="response of the interaction"))
     R.do(conn.close)
 
 
@@ -628,4 +643,4 @@ def sc_real_timeout(spec, can, res, R):
 
 SCENARIOS = {"telnet": sc_telnet, "ssh": sc_ssh, "escalate": sc_escalate, "interactive": sc_interactive,
              "net_interactive": sc_net_interactive, "factory": sc_factory, "paramiko": sc_paramiko, "asyncssh": sc_asyncssh,
-             "real_timeout": sc_real_timeout, "system": sc_system}
+             "real_timeout": sc_real_timeout, "system": sc_system, "interactive_early": sc_interactive_early}
